@@ -1,5 +1,7 @@
 import subprocess, sys, re, os, shutil
-p='/verif/contracts/valid.vi'
+# usage: canary_lemmas.py [names..]   (env CANARY_FILE / CANARY_UNIT select another include file / unit)
+p=os.environ.get('CANARY_FILE','/verif/contracts/valid.vi')
+unit=os.environ.get('CANARY_UNIT','contracts/U9_manip.vc')
 orig=open(p).read()
 names=re.findall(r'^pub proof fn (\w+)', orig, re.M)
 if len(sys.argv) > 1: names=[n for n in names if n in sys.argv[1:]]
@@ -13,7 +15,7 @@ try:
         mod=orig[:e]+'    assert(false);\n'+orig[e:]
         open(p,'w').write(mod)
         env=dict(os.environ, VERUS_EXTRA='--verify-root --verify-function %s' % nm)
-        out=subprocess.run(['python3','tools/unit.py','contracts/U9_manip.vc'],capture_output=True,text=True,env=env,cwd='/verif').stdout
+        out=subprocess.run(['python3','tools/unit.py',unit],capture_output=True,text=True,env=env,cwd='/verif').stdout
         failed='FAILED' in out or "'errors': 1" in out
         print(nm, 'ok (canary fails)' if failed else 'VACUOUS?!', flush=True)
         if not failed: bad.append(nm)
